@@ -368,11 +368,11 @@ def run(F, R, tier):
     fn = DID + "::valid_method_id"
     h = F.hir(fn)
     if r6.anchor(h, fn):
-        fns = {f.rsplit("::", 1)[-1] for f in H.called_fns(H.root(h))}
+        fns = {f.rsplit("::", 1)[-1] for f in L.called_fns_deep(F, fn)}
         uses_radix = "from_str_radix" in fns
         uses_shared = "is_valid_percent_encoded_char" in fns or "is_ascii_hexdigit" in fns
         r6.site("valid_method_id escape check: from_str_radix=%s hexdigit/shared=%s" % (uses_radix, uses_shared))
-        lens = [x for x in H.literals(H.root(h)) if x == 2]
+        lens = [x for x in L.literals_deep(F, fn) if x == 2]
         r6.require(len(lens) >= 2 or "is_valid_percent_encoded_char" in fns, (fn, "escape-length"), "valid_method_id does not require exactly two characters after '%'")
         r6.require(uses_shared and not uses_radix, (fn, "escape-check"),
                    "valid_method_id validates a percent escape with u8::from_str_radix over `take(2)`: that accepts a truncated escape (\"%4\") and a sign (\"%+4\"), which are not `%` HEXDIG HEXDIG")
